@@ -400,11 +400,11 @@ class Quantity {
     //
     // Note that the min/max implementations return by _value_, for consistency with other Quantity
     // implementations (because in the general case, the return type can differ from the inputs).
-    // Note, too, that we use the Walter Brown implementation for min/max, where min prefers `a`,
-    // max prefers `b`, and they never return the same input (although this matters less when we're
-    // returning by value).
+    // When neither input is less than the other (equal values, signed zeros, NaN), both return `a`,
+    // exactly like `std::min` and `std::max` --- which is what every other overload (different units
+    // or reps, and `QuantityPoint`) already delegates to.
     friend constexpr Quantity min(Quantity a, Quantity b) { return b < a ? b : a; }
-    friend constexpr Quantity max(Quantity a, Quantity b) { return b < a ? a : b; }
+    friend constexpr Quantity max(Quantity a, Quantity b) { return a < b ? b : a; }
     friend constexpr Quantity clamp(Quantity v, Quantity lo, Quantity hi) {
         return (v < lo) ? lo : ((hi < v) ? hi : v);
     }
